@@ -229,3 +229,333 @@ def _txn_kinds(d, kinds_per_fault, **p):
 
 
 txn2.meta = txn.meta
+
+
+# ------------------------------------------------------------------ one transition from a symbolic state
+from bacpypes.comm import bind, Server, ServiceAccessPoint, ApplicationServiceElement      # noqa: E402
+from bacpypes.pdu import Address                                                            # noqa: E402
+from bacpypes.app import DeviceInfoCache                                                    # noqa: E402
+from bacpypes import appservice as AS                                                       # noqa: E402
+from bacpypes.apdu import (ConfirmedRequestPDU, SimpleAckPDU, ComplexAckPDU, ErrorPDU,      # noqa: E402
+                           RejectPDU, SegmentAckPDU)
+
+SSM_FIELDS = ("state", "retryCount", "segmentRetryCount", "sentAllSegments", "initialSequenceNumber",
+              "lastSequenceNumber", "actualWindowSize", "segmentCount", "segmentSize", "segmentAPDU", "invokeID")
+
+
+class _Below(Server):
+    def __init__(self):
+        Server.__init__(self)
+        self.sent = []
+
+    def indication(self, pdu):
+        self.sent.append(pdu)
+
+
+class _Above(ApplicationServiceElement):
+    """what the state machine access point hands to the layer above"""
+
+    def __init__(self):
+        ApplicationServiceElement.__init__(self)
+        self.up = []
+
+    def indication(self, apdu):
+        self.up.append(("indication", apdu))
+
+    def confirmation(self, apdu):
+        self.up.append(("confirmation", apdu))
+
+
+def _rig(retries):
+    w = World()
+    dev = nl.make_device("x", 30, numberOfApduRetries=retries, segmentationSupported="segmentedBoth",
+                         maxApduLengthAccepted=50, maxSegmentsAccepted=16)
+    smap = AS.StateMachineAccessPoint(dev, DeviceInfoCache())
+    below, above = _Below(), _Above()
+    bind(above, smap, below)
+    return w, smap, below, above
+
+
+def _event_apdu(d, types, peer, inv):
+    t = d.pick(types, 'event')
+    seq, win = d.int(0, 255, 'seq'), d.int(0, 255, 'win')
+    if t == "simple-ack":
+        a = SimpleAckPDU(18, inv)
+    elif t == "complex-ack":
+        a = ComplexAckPDU(18, inv)
+        a.apduSeg, a.apduMor = d.bool('seg'), d.bool('mor')
+        a.apduSeq, a.apduWin = seq, win
+        a.put_data(bytes([0x09, 0x07, 0x19, 0x01]))
+    elif t == "error":
+        a = ErrorPDU(18, inv)
+    elif t == "reject":
+        a = RejectPDU(inv, 4)
+    elif t == "abort":
+        a = AbortPDU(d.bool('srv'), inv, 0)
+    elif t == "segment-ack":
+        a = SegmentAckPDU(d.bool('nak'), d.bool('srv'), inv, seq, win)
+    elif t == "request":
+        a = ConfirmedRequestPDU(18)
+        a.apduInvokeID = inv
+        a.apduSeg, a.apduMor, a.apduSA = d.bool('seg'), d.bool('mor'), d.bool('sa')
+        a.apduSeq, a.apduWin = seq, win
+        a.apduMaxSegs, a.apduMaxResp = 4, 0
+        a.put_data(bytes([0x09, 0x07, 0x19, 0x01]))
+    else:
+        return t, None
+    a.pduSource = peer
+    return t, a
+
+
+def _ghost_sent_upto(d, tr, nseg):
+    """ghost variable of the sender invariant: the highest segment index sent so far.  While no window is agreed
+    only segment 0 was sent; afterwards at least the window start; the sent-all flag says it reached the last"""
+    if tr.actualWindowSize is None:
+        sent_upto = 0
+    else:
+        sent_upto = d.int(0, nseg - 1, 'sent_upto')
+        d.assume(tr.initialSequenceNumber <= sent_upto)
+    d.assume(bool(tr.sentAllSegments) == (sent_upto == nseg - 1))
+    return sent_upto
+
+
+def _conforming_ack(d, ev, tr, sent_upto):
+    """a conforming peer acknowledges only segments it was sent, with a window of 1..127; a sequence number
+    'behind' the window start is a stale duplicate"""
+    d.assume(1 <= ev.apduWin <= 127)
+    delta = ev.apduSeq - tr.initialSequenceNumber
+    if delta < 0:
+        delta += 256
+    if delta < 128:
+        d.assume(tr.initialSequenceNumber + delta <= sent_upto)
+
+
+def _sender_invariant(tr, nseg, sent_upto, frames):
+    """the invariant assumed for sender pre-states holds again afterwards (else the lemma is not inductive)"""
+    for f in frames:
+        if getattr(f, "apduSeg", False) and f.apduSeq is not None and f.apduSeq > sent_upto:
+            sent_upto = f.apduSeq           # fewer than 256 segments here: sequence number = index
+    if not (0 <= tr.initialSequenceNumber < nseg):
+        raise Violation("invariant-window-start", initial=tr.initialSequenceNumber, segments=nseg)
+    if tr.actualWindowSize is not None and tr.initialSequenceNumber > sent_upto:
+        raise Violation("invariant-window-start-not-sent", initial=tr.initialSequenceNumber, sent_upto=sent_upto)
+    if bool(tr.sentAllSegments) != (sent_upto == nseg - 1):
+        raise Violation("invariant-sent-all-flag", sentAll=tr.sentAllSegments, sent_upto=sent_upto, segments=nseg)
+
+
+def _check_post(d, tr, live_list, outcomes, was_terminal=False):
+    terminal = tr.state in (AS.COMPLETED, AS.ABORTED)
+    listed = any(x is tr for x in live_list)
+    if terminal:
+        if listed:
+            raise Violation("terminal-transaction-still-listed", state=tr.state)
+        if tr.isScheduled:
+            raise Violation("terminal-transaction-keeps-timer", state=tr.state)
+    else:
+        if not listed:
+            raise Violation("live-transaction-not-listed", state=tr.state)
+        if not tr.isScheduled:
+            raise Violation("live-transaction-without-timer", state=tr.state)
+    return terminal
+
+
+@meta(bounds="one real ClientSSM in a symbolic state (state in SEGMENTED_REQUEST / AWAIT_CONFIRMATION / SEGMENTED_CONFIRMATION, "
+             "retry counters 0..retries, sent-all flag, sequence numbers 0..255, window none or 1..127, 1..4 segments) satisfying the "
+             "representation invariant 'live <=> listed <=> timer armed <=> no outcome yet'; one event: any reply APDU the access "
+             "point routes to a client transaction (simple/complex ack, error, reject, abort, segment-ack with symbolic flags, "
+             "sequence number and window 0..255) or the timer",
+      outside="the invariant is assumed for the pre-state and shown for the post-state (one inductive step: histories of any "
+              "length, provided the invariant captures the reachable states); payload content (C05)",
+      stubs=["fresh singletons per path", "virtual clock", "state fields of SSM set directly (the anchors the property names)"])
+def ssm_step_client(d, retries):
+    w, smap, below, above = _rig(retries)
+    peer = Address(9)
+    tr = AS.ClientSSM(smap, peer)
+    for f in SSM_FIELDS:
+        if not hasattr(tr, f):
+            d.note(skipped="state field %s not present" % f)
+            d.reach()
+            return
+    smap.clientTransactions.append(tr)
+    inv = 7
+    nseg = d.int(1, 4, 'segments')
+    req = ConfirmedRequestPDU(18)
+    req.apduInvokeID = inv
+    req.pduDestination = peer
+    req.put_data(bytes(range(40)) * nseg)
+    tr.segmentAPDU, tr.invokeID, tr.segmentSize, tr.segmentCount = req, inv, 44, nseg
+    state = d.pick([AS.SEGMENTED_REQUEST, AS.AWAIT_CONFIRMATION, AS.SEGMENTED_CONFIRMATION], 'state')
+    tr.retryCount = d.int(0, retries, 'retryCount')
+    tr.segmentRetryCount = d.int(0, retries, 'segmentRetryCount')
+    tr.initialSequenceNumber = d.int(0, 255, 'initialSequenceNumber')
+    tr.lastSequenceNumber = d.int(0, 255, 'lastSequenceNumber')
+    if state == AS.SEGMENTED_REQUEST:
+        d.assume(nseg >= 2)
+        tr.sentAllSegments = d.bool('sentAllSegments')
+        if d.bool('window_known'):
+            tr.actualWindowSize = d.int(1, 127, 'actualWindowSize')
+        else:
+            tr.actualWindowSize = None
+            d.assume(tr.initialSequenceNumber == 0)
+            d.assume(not tr.sentAllSegments)
+        d.assume(tr.initialSequenceNumber < nseg)
+        sent_upto = _ghost_sent_upto(d, tr, nseg)
+    elif state == AS.AWAIT_CONFIRMATION:
+        tr.sentAllSegments = True
+        tr.actualWindowSize = d.int(1, 127, 'actualWindowSize') if nseg > 1 else None
+    else:
+        tr.sentAllSegments = True
+        tr.actualWindowSize = d.int(1, 127, 'actualWindowSize')
+        ctx = ComplexAckPDU(18, inv)
+        ctx.pduSource = peer
+        ctx.put_data(b"\x01\x02")
+        tr.segmentAPDU = ctx
+    tr.state = state
+    tr.start_timer(1000)
+    retry0, segretry0 = tr.retryCount, tr.segmentRetryCount
+    kind, ev = _event_apdu(d, ["simple-ack", "complex-ack", "error", "reject", "abort", "segment-ack", "timeout"], peer, inv)
+    n_up, n_down = len(above.up), len(below.sent)
+    if ev is None:
+        w.clock = 1.0
+        tr.isScheduled = False          # the scheduler popped it, as TaskManager.get_next_task does
+        w.tm.suspend_task(tr)
+        tr.process_task()
+    else:
+        # only what StateMachineAccessPoint.confirmation routes to a client transaction
+        if kind == "abort":
+            d.assume(ev.apduSrv)
+        if kind == "segment-ack":
+            d.assume(ev.apduSrv)
+            if state == AS.SEGMENTED_REQUEST:
+                _conforming_ack(d, ev, tr, sent_upto)
+        smap.confirmation(ev)
+    outcomes = above.up[n_up:]
+    terminal = _check_post(d, tr, smap.clientTransactions, outcomes)
+    if tr.state == AS.SEGMENTED_REQUEST and state == AS.SEGMENTED_REQUEST:
+        _sender_invariant(tr, nseg, sent_upto, below.sent[n_down:])
+    if terminal and len(outcomes) != 1:
+        raise Violation("terminal-without-exactly-one-outcome", n=len(outcomes), event=kind, state=state)
+    if not terminal and outcomes:
+        raise Violation("outcome-while-still-live", n=len(outcomes), event=kind, state=state)
+    for (how, o) in outcomes:
+        if how != "confirmation" or o.apduInvokeID != inv:
+            raise Violation("outcome-misdirected", how=how, invoke=o.apduInvokeID)
+    if kind == "timeout" and not terminal:
+        # a retry edge: one of the retry counters went up, within the configured bound
+        if not ((tr.retryCount == retry0 + 1 and tr.retryCount <= retries) or
+                (tr.segmentRetryCount == segretry0 + 1 and tr.segmentRetryCount <= retries)):
+            raise Violation("retry-without-progress", retry=(retry0, tr.retryCount), seg=(segretry0, tr.segmentRetryCount))
+    d.reach()
+
+
+@meta(bounds="one real ServerSSM in a symbolic state (IDLE just created / SEGMENTED_REQUEST / AWAIT_RESPONSE / SEGMENTED_RESPONSE, "
+             "counters and sequence numbers as for the client) satisfying the same invariant; one event: a confirmed-request "
+             "(segment) / abort / segment-ack from the client with symbolic flags, or the application's response "
+             "(simple ack, complex ack of 1..3 segments, error, reject, abort), or the timer",
+      outside="as ssm_step_client",
+      stubs=["fresh singletons per path", "virtual clock", "state fields of SSM set directly (the anchors the property names)"])
+def ssm_step_server(d, retries):
+    w, smap, below, above = _rig(retries)
+    peer = Address(9)
+    inv = 7
+    tr = AS.ServerSSM(smap, peer)
+    for f in SSM_FIELDS:
+        if not hasattr(tr, f):
+            d.note(skipped="state field %s not present" % f)
+            d.reach()
+            return
+    smap.serverTransactions.append(tr)
+    state = d.pick([AS.IDLE, AS.SEGMENTED_REQUEST, AS.AWAIT_RESPONSE, AS.SEGMENTED_RESPONSE], 'state')
+    tr.invokeID = inv
+    tr.segmentRetryCount = d.int(0, retries, 'segmentRetryCount')
+    tr.initialSequenceNumber = d.int(0, 255, 'initialSequenceNumber')
+    tr.lastSequenceNumber = d.int(0, 255, 'lastSequenceNumber')
+    tr.segmented_response_accepted = True
+    tr.maxSegmentsAccepted = 16
+    tr.maxApduLengthAccepted = 50
+    if state == AS.SEGMENTED_REQUEST:
+        ctx = ConfirmedRequestPDU(18)
+        ctx.apduInvokeID = inv
+        ctx.pduSource = peer
+        ctx.put_data(b"\x09\x07")
+        tr.segmentAPDU = ctx
+        tr.actualWindowSize = d.int(1, 127, 'actualWindowSize')
+    elif state == AS.SEGMENTED_RESPONSE:
+        nseg = d.int(2, 4, 'segments')
+        ctx = ComplexAckPDU(18, inv)
+        ctx.pduDestination = peer
+        ctx.put_data(bytes(range(45)) * nseg)
+        tr.segmentAPDU, tr.segmentSize, tr.segmentCount = ctx, 45, nseg
+        tr.sentAllSegments = d.bool('sentAllSegments')
+        if d.bool('window_known'):
+            tr.actualWindowSize = d.int(1, 127, 'actualWindowSize')
+        else:
+            tr.actualWindowSize = None
+            d.assume(tr.initialSequenceNumber == 0)
+            d.assume(not tr.sentAllSegments)
+        d.assume(tr.initialSequenceNumber < nseg)
+        sent_upto = _ghost_sent_upto(d, tr, nseg)
+    tr.state = state
+    if state != AS.IDLE:
+        tr.start_timer(1000)
+    events = {AS.IDLE: ["request"],
+              AS.SEGMENTED_REQUEST: ["request", "abort", "timeout"],
+              AS.AWAIT_RESPONSE: ["request", "abort", "timeout", "app-simple-ack", "app-complex-ack", "app-error",
+                                  "app-reject", "app-abort"],
+              AS.SEGMENTED_RESPONSE: ["segment-ack", "abort", "timeout"]}[state]
+    kind, ev = _event_apdu(d, events, peer, inv)
+    n_up, n_down = len(above.up), len(below.sent)
+    if kind == "timeout":
+        w.clock = 1.0
+        tr.isScheduled = False
+        w.tm.suspend_task(tr)
+        tr.process_task()
+    elif kind.startswith("app-"):
+        if kind == "app-simple-ack":
+            r = SimpleAckPDU(18, inv)
+        elif kind == "app-complex-ack":
+            r = ComplexAckPDU(18, inv)
+            r.put_data(bytes(range(40)) * d.int(1, 3, 'response_chunks'))
+        elif kind == "app-error":
+            r = ErrorPDU(18, inv)
+        elif kind == "app-reject":
+            r = RejectPDU(inv, 4)
+        else:
+            r = AbortPDU(True, inv, 0)
+        r.pduDestination = peer
+        smap.sap_confirmation(r)
+    else:
+        if kind == "abort":
+            d.assume(not ev.apduSrv)
+        if kind == "segment-ack":
+            d.assume(not ev.apduSrv)
+            _conforming_ack(d, ev, tr, sent_upto)
+        if kind == "request" and state == AS.IDLE:
+            d.assume(not ev.apduSeg or (ev.apduSeq == 0 and 1 <= ev.apduWin <= 127))
+        smap.confirmation(ev)
+    terminal = _check_post(d, tr, smap.serverTransactions, None)
+    if tr.state == AS.SEGMENTED_RESPONSE and state == AS.SEGMENTED_RESPONSE:
+        _sender_invariant(tr, tr.segmentCount, sent_upto, below.sent[n_down:])
+    # the request is handed to the application at most once, and only on the way into AWAIT_RESPONSE
+    ups = above.up[n_up:]
+    reqs = [o for (how, o) in ups if how == "indication" and isinstance(o, ConfirmedRequestPDU)]
+    if len(reqs) > 1 or (reqs and tr.state != AS.AWAIT_RESPONSE and not terminal):
+        raise Violation("request-indicated-more-than-once-or-in-wrong-state", n=len(reqs), state=tr.state)
+    if state == AS.AWAIT_RESPONSE and kind == "request" and reqs:
+        raise Violation("duplicate-request-indicated-again")
+    if kind.startswith("app-") and state == AS.AWAIT_RESPONSE:
+        if len(below.sent) == n_down:
+            raise Violation("application-response-not-sent", response=kind)
+    d.reach()
+
+
+_c04_scn_instances = instances
+
+
+def instances(tier):
+    out = _c04_scn_instances(tier)
+    q = tier == "quick"
+    for retries in ((1,) if q else (0, 1, 3)):
+        out.append(Inst(ssm_step_client, dict(retries=retries), budget=80 if q else 600, path_timeout=60))
+        out.append(Inst(ssm_step_server, dict(retries=retries), budget=80 if q else 600, path_timeout=60))
+    return out
